@@ -22,7 +22,7 @@ def write(p, s):
 
 def gen_cases(ctx, T, maxp, nsample, seed, ks="{0,1,2,4}"):
     d = ctx.tlc_dir("colloc")
-    write(os.path.join(d, "MCColloc.tla"), "---- MODULE MCColloc ----\nEXTENDS CollocCases\nmcIs == {0-1, 1, 2, 3}\n====\n")
+    write(os.path.join(d, "MCColloc.tla"), "---- MODULE MCColloc ----\nEXTENDS CollocCases\nmcIs == {0-1, 0, 1, 2, 3}\n====\n")
     write(os.path.join(d, "MCColloc.cfg"),
           "CONSTANTS N = %d T = %d MaxP = %d NSample = %d Ks = %s\nIs <- mcIs\nINIT Init\nNEXT Next\n"
           "INVARIANT SwapInv\nINVARIANT Emit\n" % (N, T, maxp, nsample, ks))
@@ -131,7 +131,10 @@ def replay_case(col, item):
     S = [tuple(p) for p in case["S"]]
     rows = case["rows"]
     # deterministic subsample of the parameter rows, always containing the boundary-rich ones
+    allrows = rows
     rows = sorted(rows, key=lambda r: (len(r[4]) == 0, (r[0] * 7 + r[1] * 3 + r[2] + n) % 11))[:rows_per_case]
+    # max_interval = 0 (nothing is closer in time than zero seconds) where the purely spatial search WOULD find pairs
+    rows += [r for r in allrows if r[0] == 0 and any(r2[0] == -1 and r2[1:4] == r[1:4] and r2[4] for r2 in allrows)][:1]
     uniq_p = len({p[0] for p in P}) == len(P)
     uniq_s = len({p[0] for p in S}) == len(S)
     for conf in confs_for(n, tier):
